@@ -158,6 +158,15 @@ func isMake(e ast.Expr, typ string) bool {
 
 // mapsCopy recognises maps.Copy(result.F, <root>.F).
 func isMapsCopy(s ast.Stmt, field, root string) bool {
+	// for k, v := range <root>.F { result.F[k] = v }
+	if rs, ok := s.(*ast.RangeStmt); ok && rs.Key != nil && rs.Value != nil && isSel(rs.X, root, field) && len(rs.Body.List) == 1 {
+		l, r, ok := singleAssign(rs.Body.List[0])
+		if ix, okI := l.(*ast.IndexExpr); ok && okI && isSel(ix.X, "result", field) &&
+			exprString(ix.Index) == exprString(rs.Key) && exprString(r) == exprString(rs.Value) {
+			return true
+		}
+		return false
+	}
 	es, ok := s.(*ast.ExprStmt)
 	if !ok {
 		return false
@@ -211,6 +220,23 @@ func (t *mergeTr) ifStmt(s *ast.IfStmt, pos string) error {
 			}
 		}
 		return fmt.Errorf("%s: unsupported map merge %s", pos, exprString(s.Cond))
+	}
+	// len(b.X) > 0 / len(b.X) != 0 on a string is b.X != ""
+	if c, ok := be.X.(*ast.CallExpr); ok && isIdent(c.Fun, "len") && len(c.Args) == 1 && (be.Op == token.GTR || be.Op == token.NEQ) && isLit(be.Y, "0") {
+		if r, f, ok := selPath(c.Args[0]); ok && r == "b" {
+			if i, known := t.index[f]; known && t.fields[i].kind == "str" {
+				be = &ast.BinaryExpr{X: c.Args[0], Op: token.NEQ, Y: &ast.BasicLit{Kind: token.STRING, Value: `""`}}
+			}
+		}
+	}
+	// a literal on the left: "" != b.X, 0 != b.X, 0 < b.X
+	if _, isL := be.X.(*ast.BasicLit); isL {
+		switch be.Op {
+		case token.NEQ:
+			be = &ast.BinaryExpr{X: be.Y, Op: token.NEQ, Y: be.X}
+		case token.LSS:
+			be = &ast.BinaryExpr{X: be.Y, Op: token.GTR, Y: be.X}
+		}
 	}
 	r, f, ok := selPath(be.X)
 	if !ok || r != "b" {
@@ -283,15 +309,42 @@ func genMergeConfig(repo string) (string, error) {
 	if fd == nil {
 		return "", fmt.Errorf("MergeConfig not found")
 	}
-	if sig := exprString(fd.Type); sig != "func(a, b *Config) *Config" {
-		return "", fmt.Errorf("MergeConfig signature %s", sig)
+	// names carry no meaning: the two parameters become a and b, the copy of *a becomes result
+	pn := paramNames(fd)
+	if len(pn) != 2 || fd.Type.Results == nil || len(fd.Type.Results.List) != 1 || exprString(fd.Type.Results.List[0].Type) != "*Config" {
+		return "", fmt.Errorf("MergeConfig signature %s", exprString(fd.Type))
+	}
+	for _, p := range fd.Type.Params.List {
+		if exprString(p.Type) != "*Config" {
+			return "", fmt.Errorf("MergeConfig signature %s", exprString(fd.Type))
+		}
 	}
 	stmts := fd.Body.List
 	if len(stmts) < 2 {
 		return "", fmt.Errorf("MergeConfig body too short")
 	}
+	ren := map[string]string{pn[0]: "a", pn[1]: "b"}
+	switch s0 := stmts[0].(type) {
+	case *ast.DeclStmt:
+		if gd, ok := s0.Decl.(*ast.GenDecl); ok && gd.Tok == token.VAR && len(gd.Specs) == 1 {
+			if vs := gd.Specs[0].(*ast.ValueSpec); len(vs.Names) == 1 && len(vs.Values) == 1 && exprString(vs.Values[0]) == "*"+pn[0] {
+				ren[vs.Names[0].Name] = "result"
+			}
+		}
+	case *ast.AssignStmt:
+		if s0.Tok == token.DEFINE && len(s0.Lhs) == 1 && len(s0.Rhs) == 1 && exprString(s0.Rhs[0]) == "*"+pn[0] {
+			ren[exprString(s0.Lhs[0])] = "result"
+			// canonical form of the first statement
+			stmts[0] = &ast.DeclStmt{Decl: &ast.GenDecl{Tok: token.VAR, Specs: []ast.Spec{&ast.ValueSpec{
+				Names: []*ast.Ident{ast.NewIdent(exprString(s0.Lhs[0]))}, Values: s0.Rhs}}}}
+		}
+	}
+	if err := checkRename(fd, ren); err != nil {
+		return "", err
+	}
+	renameIdents(fd, ren)
 	if s := exprString(stmts[0]); s != "var result = *a" {
-		return "", fmt.Errorf("MergeConfig must start with `var result = *a`, found %s", s)
+		return "", fmt.Errorf("MergeConfig must start with a copy of its first argument (`var result = *a`), found %s", s)
 	}
 	if s := exprString(stmts[len(stmts)-1]); s != "return &result" {
 		return "", fmt.Errorf("MergeConfig must end with `return &result`, found %s", s)
@@ -318,6 +371,28 @@ func genMergeConfig(repo string) (string, error) {
 					return "", err
 				}
 				continue
+			}
+			// result.X = result.X || b.X   (also a.X || b.X, either order): a switch
+			if be, ok := rhs.(*ast.BinaryExpr); ok && be.Op == token.LOR {
+				isA := func(e ast.Expr) bool { return isSel(e, "a", fld) || isSel(e, "result", fld) }
+				if (isA(be.X) && isSel(be.Y, "b", fld)) || (isSel(be.X, "b", fld) && isA(be.Y)) {
+					if err := t.set(fld, "orSwitch", pos); err != nil {
+						return "", err
+					}
+					continue
+				}
+			}
+			// result.X = append(append(<fresh>, a.X...), b.X...) with <fresh> = []string{} | []string(nil) | make([]string, 0[, n])
+			if outer, ok := rhs.(*ast.CallExpr); ok && isIdent(outer.Fun, "append") && len(outer.Args) == 2 && outer.Ellipsis != token.NoPos && isSel(outer.Args[1], "b", fld) {
+				if inner, ok := outer.Args[0].(*ast.CallExpr); ok && isIdent(inner.Fun, "append") && len(inner.Args) == 2 && inner.Ellipsis != token.NoPos && isSel(inner.Args[1], "a", fld) {
+					fresh := exprString(inner.Args[0])
+					if fresh == "[]string{}" || fresh == "[]string(nil)" || strings.HasPrefix(fresh, "make([]string, 0") {
+						if err := t.set(fld, "concat", pos); err != nil {
+							return "", err
+						}
+						continue
+					}
+				}
 			}
 			// result.X = append(a.X, b.X...)
 			if c, ok := rhs.(*ast.CallExpr); ok && isIdent(c.Fun, "append") && len(c.Args) == 2 && c.Ellipsis != token.NoPos &&
@@ -348,6 +423,9 @@ func genMergeConfig(repo string) (string, error) {
 	rd := findFunc(f, "", "ReadConfigPaths")
 	if rd == nil {
 		return "", fmt.Errorf("ReadConfigPaths not found")
+	}
+	if err := normaliseRead(f, rd); err != nil {
+		return "", err
 	}
 	if sig := exprString(rd.Type); sig != "func(paths []string) (*Config, error)" {
 		return "", fmt.Errorf("ReadConfigPaths signature %s", sig)
